@@ -200,6 +200,14 @@ impl Check for C17 {
             }
             let n = buf.len();
             others.step(sc);
+            // reach probes count states visited, whatever the library then does with them
+            match n {
+                12 => st.hit("probe:cut_12"),
+                13 => st.hit("probe:cut_13"),
+                14 => st.hit("probe:cut_14"),
+                15 => st.hit("probe:cut_15"),
+                _ => {}
+            }
             let r = match guard(|| v2::Header::try_from(&buf[..]).map(|h| h.len())) {
                 Ok(r) => r,
                 Err(_) => {
@@ -209,13 +217,6 @@ impl Check for C17 {
             };
             st.oracle_evals += 1;
             st.log("parse", n as u64, r.is_ok() as u64);
-            match n {
-                12 => st.hit("probe:cut_12"),
-                13 => st.hit("probe:cut_13"),
-                14 => st.hit("probe:cut_14"),
-                15 => st.hit("probe:cut_15"),
-                _ => {}
-            }
             // ---- oracle: arithmetic on the stream, exactly as far as the property goes:
             //  * an Incomplete / Partial result must carry exact numbers;
             //  * after a Partial, supplying exactly the missing bytes must give Ok, and
